@@ -411,6 +411,21 @@ static void run_case(const char *hex, const char *sched) {
             case 'R': r.rawerr = 1; break;
             case 'E': op_eof(&r); break;
             case 'G': janet_collect(); break;
+            case 'x': {
+                /* a second, unrelated live parser consumes bytes in between: must not influence this one (no state outside the struct) */
+                static const uint8_t decoy_bytes[] = { '(', '"', '\\', 'x', '4', '`', '\n', ' ', '@', '\r' };
+                Janet dv;
+                if (!pcallc(cfun_parse_parser, 0, NULL, &dv)) {
+                    JanetParser *dp = (JanetParser *) janet_unwrap_abstract(dv);
+                    janet_gcroot(dv);
+                    for (size_t di = 0; di < sizeof decoy_bytes; di++) {
+                        if (janet_parser_status(dp) == JANET_PARSE_ERROR) janet_parser_error(dp);
+                        janet_parser_consume(dp, decoy_bytes[di]);
+                    }
+                    janet_gcunroot(dv);
+                }
+                break;
+            }
             default: tx_printf(&r.tr, "BADOP%c ", op); break;
         }
     }
